@@ -116,7 +116,7 @@ def finish(ctx, explanation, trusted_extra=(), assumptions=()):
             matched.append((o, k))
         else:
             new_viol.append(o)
-    rep_dir = os.path.join(VERIF, 'reports', ctx.prop)
+    rep_dir = os.path.join(os.environ.get('ASL_EVIDENCE_DIR') or os.path.join(VERIF, 'reports'), ctx.prop)
     os.makedirs(rep_dir, exist_ok=True)
     for fn in os.listdir(rep_dir):
         if fn.startswith('violation-'):
@@ -190,8 +190,9 @@ def finish(ctx, explanation, trusted_extra=(), assumptions=()):
         'violations': len(new_viol),
     }
     ev['coverage'].update(ctx.info)
-    os.makedirs(os.path.join(VERIF, 'evidence'), exist_ok=True)
-    json.dump(ev, open(os.path.join(VERIF, 'evidence', ctx.prop + '.json'), 'w'), indent=1)
+    evdir = os.environ.get('ASL_EVIDENCE_DIR') or os.path.join(VERIF, 'evidence')   # overridden only by bin/try_patch.sh (scratch trees)
+    os.makedirs(evdir, exist_ok=True)
+    json.dump(ev, open(os.path.join(evdir, ctx.prop + '.json'), 'w'), indent=1)
     for l in lines:
         print(l)
     print('%s [%s]: %d obligations, %d discharged, %d known finding(s), %d new violation(s), %d undecided; %d functions in %d units; %.1fs'
